@@ -279,6 +279,20 @@ def add_stream_scn(prefix, caps=(1, 2), fut=False, shared_parent=False):
             name = "%s-%s%s-c%d-%d" % (prefix, "shared" if shared_parent else "sole", "F" if fut else "", cap, k)
             k += 1
             out.append(scenario(name, "bcast", fut, cap, "busy", t.setup, threads, fin))
+    # two add_stream calls from different threads overlap (each on the sole handle of its own stream)
+    for cap in caps:
+        if shared_parent:
+            break
+        t = Topo("bcast", 1, [1, 1])
+        threads = [sends("tx", 101, cap + 2, api=snd),
+                   [S("add_stream", "rx", new="n1"), S(rcv, "n1"), S(rcv, "rx")],
+                   [S("add_stream", "s2", new="n2"), S(rcv, "n2"), S(rcv, "s2")]]
+        hs = ("rx", "s2", "n1", "n2")
+        fin = [S("drain", h) for h in hs] + [S("fill", "tx", v=9000, n=20)] + [S("drop", "tx")] + \
+              [S("drain", h) for h in hs] + [S("drop", h) for h in hs]
+        name = "%s-double%s-c%d-%d" % (prefix, "F" if fut else "", cap, k)
+        k += 1
+        out.append(scenario(name, "bcast", fut, cap, "busy", t.setup, threads, fin))
     # another stream's consumer races with the add on a sole parent
     for cap in caps:
         t = Topo("bcast", 1, [1, 1])
